@@ -396,6 +396,8 @@ func (radius *RADIUS) DecodeFromBytes(data []byte, df gopacket.DecodeFeedback) e
 	}
 
 	radius.BaseLayer = BaseLayer{Contents: data}
+	// the attributes are appended below: do not keep those of an earlier decode
+	radius.Attributes = nil
 
 	radius.Code = RADIUSCode(data[0])
 	radius.Identifier = RADIUSIdentifier(data[1])
